@@ -61,6 +61,11 @@ def check(ctx: Ctx) -> str:
     ft = repo.func("debug:fake_traceback")
     ctx.check("'\\n' * (lineno - 1) + 'raise __jinja_exception__'" in ast.unparse(ft.node), "traceback:line", "debug:fake_traceback", "fake frame line", "the fake frame must raise on line `lineno` (lineno - 1 newlines)", ft.loc())
 
+    from .c27 import bucket_key_inputs_rule
+
+    ctx.use("bccache")
+    bucket_key_inputs_rule(ctx, "R6")
+
     ctx.rule("R4", "syntax errors default to the line of the current token")
     pf = repo.func("parser:Parser.fail")
     s = ast.unparse(pf.node)
